@@ -557,11 +557,22 @@ class PteraTransformer(NodeTransformer):
                 wrapped_body.append(first)
                 body = body[1:]
 
-        stmts = node.body
-        if not isinstance(stmts[-1], (ast.Return, ast.Raise)):
+        # global/nonlocal declarations must come before any use of the names
+        # (the closure variables are read on entry): hoist them
+        declarations = [
+            stmt
+            for stmt in node.body
+            if isinstance(stmt, (ast.Global, ast.Nonlocal))
+        ]
+        wrapped_body.extend(declarations)
+        stmts = [stmt for stmt in node.body if stmt not in declarations]
+        if not stmts or not isinstance(stmts[-1], (ast.Return, ast.Raise)):
             # Falling off the end returns None: make that return explicit
             # so that it is reported like any other
-            stmts = [*stmts, ast.copy_location(ast.Return(value=None), stmts[-1])]
+            stmts = [
+                *stmts,
+                ast.copy_location(ast.Return(value=None), node.body[-1]),
+            ]
         new_body += self.visit_body(stmts)
         new_body = self.delimit(
             new_body,
